@@ -475,9 +475,9 @@ func init() {
 			"oracle math/big on raw limbs; distinct_nontrivial = distinct (type, operation, fits/overflows, limb count of a, limb count of b, shift range) classes actually evaluated; division by zero and narrowing of values that do not fit are outside the property and skipped",
 		Assume: []string{"math/big is exact", "the overflow signal is the recoverable log.Panicf of the library", "an operation on at most 256 bits that does not return within 30 s never returns"},
 		Subs: []core.Sub{
-			{Name: "u64", N: core.Const(len(o64)*4, len(o64)*16), Run: func(c *core.Ctx) { runType(c, 1, o64) }},
-			{Name: "u128", N: core.Const(len(o128)*4, len(o128)*16), Run: func(c *core.Ctx) { runType(c, 2, o128) }},
-			{Name: "u256", N: core.Const(len(o256)*4, len(o256)*16), Run: func(c *core.Ctx) { runType(c, 4, o256) }},
+			{Name: "u64", N: core.Const(len(o64)*4, len(o64)*128), Run: func(c *core.Ctx) { runType(c, 1, o64) }},
+			{Name: "u128", N: core.Const(len(o128)*4, len(o128)*128), Run: func(c *core.Ctx) { runType(c, 2, o128) }},
+			{Name: "u256", N: core.Const(len(o256)*4, len(o256)*128), Run: func(c *core.Ctx) { runType(c, 4, o256) }},
 		},
 		MinNontrivial: 100,
 	})
